@@ -118,28 +118,34 @@ class ProofReport:
 
 def prove(prop: str, tier: str) -> ProofReport:
     """Build `ArchSim.Props.<prop>`, audit the axioms of every theorem in it, grep its import closure."""
-    mod = f"ArchSim.Props.{prop}"
-    path = LEAN / "ArchSim" / "Props" / f"{prop}.lean"
+    # every file Props/<prop>.lean and Props/<prop><Suffix>.lean (e.g. C02Split, C13Toy) states obligations of <prop>
+    pdir = LEAN / "ArchSim" / "Props"
+    paths = sorted(p for p in pdir.glob(f"{prop}*.lean") if re.fullmatch(prop + r"([A-Z][A-Za-z]*)?", p.stem))
+    mods = [f"ArchSim.Props.{p.stem}" for p in paths]
+    mod = " ".join(mods)
     rep = ProofReport(module=mod, built=False)
-    if not path.exists():
-        rep.log = f"{path} missing"
+    if not paths:
+        rep.log = f"no Props file for {prop}"
         return rep
-    rep.theorems = theorems_in(path)
+    rep.theorems = [t for p in paths for t in theorems_in(p)]
     with _Lock():
-        r = _lake(["build", mod])
+        r = _lake(["build"] + mods)
         rep.log = (r.stdout + r.stderr)[-6000:]
         if r.returncode != 0:
             return rep
         rep.built = True
         # grep
-        for m in sorted(lean_closure(mod)):
+        closure = set()
+        for m_ in mods:
+            lean_closure(m_, closure)
+        for m in sorted(closure):
             src = strip_comments((LEAN / (m.replace(".", "/") + ".lean")).read_text())
             for k, line in enumerate(src.splitlines(), 1):
                 if FORBIDDEN_RE.search(line):
                     rep.forbidden.append(f"{m}:{k}: {line.strip()[:120]}")
         # axioms
         audit = LEAN / ".lake" / f"Audit_{prop}.lean"
-        audit.write_text(f"import {mod}\n" + "".join(f"#print axioms {t}\n" for t in rep.theorems))
+        audit.write_text("".join(f"import {m_}\n" for m_ in mods) + "".join(f"#print axioms {t}\n" for t in rep.theorems))
         a = _lake(["env", "lean", str(audit)])
         out = a.stdout + a.stderr
         if a.returncode != 0:
@@ -160,7 +166,7 @@ def prove(prop: str, tier: str) -> ProofReport:
             else:
                 rep.clean.append(t)
         if tier == "thorough" and os.environ.get("VERIF_LEANCHECKER", "1") == "1":
-            c = _lake(["env", "leanchecker", mod], timeout=3600)
+            c = _lake(["env", "leanchecker"] + mods, timeout=3600)
             rep.leanchecker = c.returncode == 0
             if not rep.leanchecker:
                 rep.log += "\nLEANCHECKER:\n" + (c.stdout + c.stderr)[-3000:]
